@@ -67,8 +67,11 @@ class ScaleMonitor:
 
         _EXTRA_ATTACHED.clear()
         for cls in (S.LinearScaling, S.OctaveScaling, S.MelScaling, S.BarkScaling):
-            monitor.attach(cls, "hertz_to_scale", post=lambda c: self.post(c, "fwd"))
-            monitor.attach(cls, "scale_to_hertz", post=lambda c: self.post(c, "inv"))
+            monitor.attach(cls, "hertz_to_scale", post=lambda c: self.post(c, "fwd"), ambient=self.ambient_v)
+            monitor.attach(cls, "scale_to_hertz", post=lambda c: self.post(c, "inv"), ambient=self.ambient_v)
+
+    def ambient_v(self, what, **kw):
+        self.rec.violation(dict(what=what, case=self.case, **kw))
 
     def post(self, c, direction):
         key = _key(c.self)
